@@ -1,0 +1,27 @@
+//go:build verif
+
+// Contracts for package soyhtml, checked by /verif/govc (comment-only).
+package soyhtml
+
+//@ pred special(c byte) = c == '&' || c == '<' || c == '>' || c == '"' || c == '\''
+//@ pred isRef(b []byte, c byte) = (c == '"' && bytesare(b, "&#34;")) || (c == '\'' && bytesare(b, "&#39;")) || (c == '&' && bytesare(b, "&amp;")) || (c == '<' && bytesare(b, "&lt;")) || (c == '>' && bytesare(b, "&gt;"))
+
+//@ globalinv[html-refs;C03] bytesare(htmlQuot, "&#34;") && bytesare(htmlApos, "&#39;") && bytesare(htmlAmp, "&amp;") && bytesare(htmlLt, "&lt;") && bytesare(htmlGt, "&gt;")
+
+//@ func init
+//@   props C03
+//@   nosafety
+
+//@ func htmlEscapeString
+//@   props C03
+//@   ghost covered int = 0
+//@   at call io.WriteString#0 assert[tile-plain] 0 <= covered && substr(arg1, str, covered) && covered + len(arg1) <= len(str) && forall(k, covered, covered + len(arg1), !special(str[k]))
+//@   at call io.WriteString#0 set covered = covered + len(arg1)
+//@   at call io.Writer.Write#0 assert[tile-ref] 0 <= covered && covered < len(str) && isRef(arg1, str[covered])
+//@   at call io.Writer.Write#0 set covered = covered + 1
+//@   at call io.WriteString#1 assert[tile-tail] 0 <= covered && substr(arg1, str, covered) && covered + len(arg1) <= len(str) && forall(k, covered, covered + len(arg1), !special(str[k]))
+//@   at call io.WriteString#1 set covered = covered + len(arg1)
+//@   ensures[all-covered] covered == len(str)
+//@   loop 0
+//@     invariant 0 <= last && last <= i && i <= len(str) && covered == last
+//@     invariant forall(k, last, i, !special(str[k]))
